@@ -974,9 +974,7 @@ class Models:
             init = cls.__dict__.get('__init__')
             exc = VExc(cls, args)
             if init is not None and isinstance(init, types.FunctionType):
-                c = I.world.contract_for(init)
-                if c is not None or id(init) in I.world.inline:
-                    I.call(VFunc(init, exc), args, kwargs)
+                I.call(VFunc(init, exc), args, kwargs)      # by contract, or inlined (package code)
             return exc
         name = I.world.live_class_names.get(cls)
         if name is not None:
